@@ -494,3 +494,193 @@ Proof.
   - destruct l as [| h t]; [exists (fun _ => true); reflexivity |]. eexists. reflexivity.
   - rewrite <- E. eexists. reflexivity.
 Qed.
+
+(* ------------------------------------------------------------------ multiband amplifiers *)
+Lemma lookup_amp_name : forall n lib a, lookup_amp n lib = Some a -> In a lib /\ a_name a = n.
+Proof.
+  intros n lib a. induction lib as [| x l IH]; cbn; [discriminate |].
+  destruct (String.eqb (a_name x) n) eqn:E.
+  - intros H. injection H as <-. apply String.eqb_eq in E. auto.
+  - intros H. destruct (IH H). auto.
+Qed.
+
+Lemma lookup_group_In : forall gs g, NoDup (map g_name gs) -> In g gs -> lookup_group (g_name g) gs = Some g.
+Proof.
+  induction gs as [| x l IH]; intros g Hnd Hin; [destruct Hin |].
+  cbn in Hnd. inversion Hnd as [| ? ? Hnot Hnd']; subst. cbn [lookup_group].
+  destruct Hin as [-> | Hin].
+  - rewrite String.eqb_refl. reflexivity.
+  - destruct (String.eqb (g_name x) (g_name g)) eqn:E.
+    + apply String.eqb_eq in E. exfalso. apply Hnot. rewrite E. apply in_map. exact Hin.
+    + apply IH; assumption.
+Qed.
+
+Lemma dedup_acc_In : forall l seen x, In x (dedup_acc seen l) <-> In x l /\ ~ In x seen.
+Proof.
+  induction l as [| y t IH]; intros seen x; cbn [dedup_acc].
+  - split; [intros [] | intros [[] _]].
+  - destruct (smem y seen) eqn:E.
+    + rewrite IH. apply smem_In in E. split.
+      * intros [H1 H2]. split; [right; exact H1 | exact H2].
+      * intros [[-> | H1] H2]; [contradiction | split; assumption].
+    + assert (Hn : ~ In y seen) by (intros H; apply smem_In in H; congruence).
+      cbn [In]. rewrite IH. cbn [In]. split.
+      * intros [<- | [H1 H2]]; [split; [left; reflexivity | exact Hn] |].
+        split; [right; exact H1 | intros H; apply H2; right; exact H].
+      * intros [[-> | H1] H2]; [left; reflexivity |].
+        destruct (string_dec y x) as [-> | Hne]; [left; reflexivity |].
+        right. split; [exact H1 |]. intros [H | H]; [congruence | contradiction].
+Qed.
+
+Lemma dedup_In : forall l x, In x (dedup l) <-> In x l.
+Proof. intros l x. unfold dedup. rewrite dedup_acc_In. cbn. tauto. Qed.
+
+(* the permitted multiband models *)
+Theorem multi_restrictions_spec : forall nd prev next bands lib groups m,
+  n_variety nd = ""%string ->
+  (In m (multi_restrictions nd prev next bands lib groups) <->
+   exists g, In g groups /\ g_name g = m /\
+     (let r := restr_list nd prev next in (r <> [] -> In m r) /\ (r = [] -> g_allowed g = true)) /\
+     Forall (fun t => exists b a, In b bands /\ lookup_amp t lib = Some a /\ covers a (fst b) (snd b) = true) (g_members g)).
+Proof.
+  intros nd prev next bands lib groups m Hv. unfold multi_restrictions. rewrite Hv. cbn [String.eqb negb].
+  set (r := restr_list nd prev next). rewrite in_map_iff. cbv zeta.
+  assert (Hcov : forall t, covers_any lib bands t = true <->
+                           exists b a, In b bands /\ lookup_amp t lib = Some a /\ covers a (fst b) (snd b) = true).
+  { intros t. unfold covers_any. rewrite existsb_exists. split.
+    - intros (b & Hb & Hc). unfold covers_name in Hc. destruct (lookup_amp t lib) as [a |] eqn:E; [| discriminate].
+      exists b, a. auto.
+    - intros (b & a & Hb & Ha & Hc). exists b. split; [exact Hb |]. unfold covers_name. rewrite Ha. exact Hc. }
+  split.
+  - intros (g & Hn & Hg). apply filter_In in Hg. destruct Hg as [Hin Hf]. apply andb_true_iff in Hf.
+    destruct Hf as [Hr Hm]. exists g. split; [exact Hin |]. split; [exact Hn |]. split.
+    + apply orb_true_iff in Hr. rewrite smem_In, andb_true_iff, isnil_true in Hr. subst m. split.
+      * intros Hne. destruct Hr as [H | [H _]]; [exact H | contradiction].
+      * intros He. destruct Hr as [H | [_ H]]; [rewrite He in H; destruct H | exact H].
+    + rewrite forallb_forall in Hm. apply Forall_forall. intros t Ht. apply Hcov. apply Hm. exact Ht.
+  - intros (g & Hin & Hn & [H1 H2] & Hm). exists g. split; [exact Hn |]. apply filter_In. split; [exact Hin |].
+    apply andb_true_iff. split.
+    + apply orb_true_iff. rewrite smem_In, andb_true_iff, isnil_true. subst m.
+      destruct r as [| x r']; [right; split; [reflexivity | apply H2; reflexivity] | left; apply H1; discriminate].
+    + apply forallb_forall. intros t Ht. apply Hcov. rewrite Forall_forall in Hm. apply Hm. exact Ht.
+Qed.
+
+(* multiband model g offers, for the band, a single-band entry that covers it and is capable *)
+Definition band_ok (lib : list amp) (g : mgroup) (ra : bool) (ext : Q) (b : Q * Q * Q * Q) : Prop :=
+  let '(bmin, bmax, gain, pt) := b in
+  exists t a, In t (g_members g) /\ lookup_amp t lib = Some a /\ covers a bmin bmax = true /\ a_multi a = false /\
+              capable ra ext gain pt a.
+
+Lemma capable_survives : forall ext gain pt cands a,
+  In a cands -> capable true ext gain pt a ->
+  exists acc, acc_gain true gain cands = Ok acc /\ In a (acc_power ext gain pt acc).
+Proof.
+  intros ext gain pt cands a Hin Hc.
+  destruct (capable_in_pool true ext gain pt cands a Hin Hc) as [_ Hp].
+  pose proof (acc_gain_pool true gain cands) as HG.
+  destruct (acc_gain true gain cands) as [acc | e].
+  - destruct HG as [-> _]. exists (pool true gain cands). split; [reflexivity |].
+    apply acc_power_spec. split; [exact Hp | left; apply Hc].
+  - rewrite HG in Hp. destruct Hp.
+Qed.
+
+(* a permitted model that is capable in every band survives the preselection *)
+Theorem preselect_keeps : forall lib groups ext g bts sel,
+  NoDup (map g_name groups) -> In g groups -> In (g_name g) sel ->
+  Forall (band_ok lib g true ext) bts ->
+  exists sel', preselect lib groups ext sel bts = Ok sel' /\ In (g_name g) sel'.
+Proof.
+  intros lib groups ext g bts. induction bts as [| [[[bmin bmax] gain] pt] rest IH]; intros sel Hnd Hg Hs Hall.
+  - exists sel. split; [reflexivity | exact Hs].
+  - inversion Hall as [| ? ? Hb Hrest]; subst. cbn [band_ok] in Hb.
+    destruct Hb as (t & a & Ht & Ha & Hcov & Hm & Hc).
+    destruct (lookup_amp_name _ _ _ Ha) as [Hain Hname].
+    assert (Hcand : In a (band_cands lib groups sel bmin bmax)).
+    { unfold band_cands. apply in_flat_map. exists t. split.
+      - apply dedup_In. unfold members_of. apply in_flat_map. exists (g_name g). split; [exact Hs |].
+        rewrite (lookup_group_In groups g Hnd Hg). exact Ht.
+      - rewrite Ha, Hcov. left. reflexivity. }
+    destruct (capable_survives ext gain pt _ a Hcand Hc) as (acc & Hacc & Hpow).
+    cbn [preselect]. rewrite Hacc. cbn [bind]. apply IH; auto.
+    apply dedup_In. apply in_flat_map. exists (a_name a). split; [apply in_map; exact Hpow |].
+    unfold groups_of. apply in_map. apply filter_In. split; [exact Hg |]. apply smem_In. rewrite Hname. exact Ht.
+Qed.
+
+(* once restrictions_edfa lists a capable entry for the band, the band's choice is capable and at least as quiet *)
+Theorem band_select_capable : forall lib redfa prev maxl bmin bmax gain pt ext nf t a,
+  In t redfa -> lookup_amp t lib = Some a -> covers a bmin bmax = true -> a_multi a = false ->
+  capable (raman_allowed prev maxl) ext gain pt a ->
+  exists s red, band_select lib redfa prev maxl bmin bmax gain pt ext nf = Ok (s, red) /\
+    In s lib /\ capable (raman_allowed prev maxl) ext gain pt s /\ red == 0 /\ nf s <= nf a.
+Proof.
+  intros lib redfa prev maxl bmin bmax gain pt ext nf t a Ht Ha Hcov Hm Hc.
+  destruct (lookup_amp_name _ _ _ Ha) as [Hain Hname]. unfold band_select.
+  set (r := filter (covers_name lib bmin bmax) redfa).
+  set (eq := filter (fun x => negb (a_multi x) && (isnil r || smem (a_name x) r)) lib).
+  assert (Hr : In t r).
+  { apply filter_In. split; [exact Ht |]. unfold covers_name. rewrite Ha. exact Hcov. }
+  assert (Heq : In a eq).
+  { apply filter_In. split; [exact Hain |]. rewrite Hm. cbn [negb andb]. apply orb_true_iff. right.
+    apply smem_In. rewrite Hname. exact Hr. }
+  destruct (select_capable (raman_allowed prev maxl) gain pt ext nf eq) as (s & red & Hsel & Hs & Hcs & Hred & Hmin).
+  { exists a. auto. }
+  exists s, red. split; [exact Hsel |]. split; [apply filter_In in Hs; tauto |]. split; [exact Hcs |].
+  split; [exact Hred | apply Hmin; assumption].
+Qed.
+
+(* the multiband clause: a permitted multiband model capable in every band makes auto-design choose, in every band,
+   a capable entry no noisier than that model's entry for the band *)
+Theorem multi_capable : forall nd prev next lib groups maxl ext bts g,
+  NoDup (map g_name groups) -> n_variety nd = ""%string -> In g groups ->
+  In (g_name g) (multi_restrictions nd prev next (map (fun b => (fst (fst (fst b)), snd (fst (fst b)))) bts) lib groups) ->
+  Forall (band_ok lib g (raman_allowed prev maxl) ext) bts ->
+  exists mr redfa, multi_redfa nd prev next lib groups ext bts = Ok (mr, redfa) /\
+    Forall (fun b => let '(bmin, bmax, gain, pt) := b in
+              forall nf, exists t a s red,
+                In t (g_members g) /\ lookup_amp t lib = Some a /\ covers a bmin bmax = true /\
+                band_select lib redfa prev maxl bmin bmax gain pt ext nf = Ok (s, red) /\
+                capable (raman_allowed prev maxl) ext gain pt s /\ red == 0 /\ nf s <= nf a) bts.
+Proof.
+  intros nd prev next lib groups maxl ext bts g Hnd Hv Hg Hperm Hall.
+  assert (Hall' : Forall (band_ok lib g true ext) bts).
+  { eapply Forall_impl; [| exact Hall]. intros [[[bmin bmax] gain] pt] (t & a & H1 & H2 & H3 & H4 & (_ & H5 & H6)).
+    exists t, a. repeat split; auto. }
+  destruct (preselect_keeps lib groups ext g bts _ Hnd Hg Hperm Hall') as (sel' & Hsel & Hin).
+  unfold multi_redfa. rewrite Hv. cbn [String.eqb negb]. rewrite Hsel. cbn [bind].
+  eexists. eexists. split; [reflexivity |].
+  apply Forall_forall. intros [[[bmin bmax] gain] pt] Hb nf.
+  rewrite Forall_forall in Hall. specialize (Hall _ Hb). cbn [band_ok] in Hall.
+  destruct Hall as (t & a & Ht & Ha & Hcov & Hm & Hc).
+  assert (Hred : In t (members_of groups sel')).
+  { unfold members_of. apply in_flat_map. exists (g_name g). split; [exact Hin |].
+    rewrite (lookup_group_In groups g Hnd Hg). exact Ht. }
+  destruct (band_select_capable lib _ prev maxl bmin bmax gain pt ext nf t a Hred Ha Hcov Hm Hc)
+    as (s & red & Hs & _ & Hcs & Hr0 & Hnf).
+  exists t, a, s, red. repeat split; auto; apply Hcs.
+Qed.
+
+(* full statement "every band's choice belongs to a permitted multiband model" is false of the faithful model:
+   find_type_varieties scans the whole library, so a model that is not allowed for design enters the preselection
+   through an entry it shares with a permitted one (finding F-multiband-leak) *)
+Definition w_mlib : list amp :=
+  [mkAmp "c_good" false false true 191250 196150 15 25 21 false; mkAmp "c_ok" false false true 191250 196150 15 25 21 false;
+   mkAmp "l0" false false true 186550 190050 15 25 21 false].
+Definition w_groups : list mgroup := [mkG "mA" true ["c_ok"; "l0"]%string; mkG "mB" false ["c_good"; "l0"]%string].
+Definition w_nf (a : amp) : Q := if String.eqb (a_name a) "c_good" then 5 else 7.
+
+Theorem multi_pick_permitted_refuted :
+  exists nd prev next lib groups maxl ext bts mr redfa bmin bmax gain pt nf s red,
+    n_variety nd = ""%string /\ In (bmin, bmax, gain, pt) bts /\
+    multi_redfa nd prev next lib groups ext bts = Ok (mr, redfa) /\
+    band_select lib redfa prev maxl bmin bmax gain pt ext nf = Ok (s, red) /\
+    forall g, In g groups -> In (g_name g) mr -> ~ In (a_name s) (g_members g).
+Proof.
+  exists (mkNode "" []), NOther, NOther, w_mlib, w_groups, (1 # 4000), (5 # 2),
+         [(187000, 190000, 20, 18); (191300, 196000, 20, 18)].
+  eexists. eexists. exists 191300, 196000, 20, 18, w_nf. eexists. eexists.
+  split; [reflexivity |]. split; [right; left; reflexivity |].
+  split; [vm_compute; reflexivity |]. split; [vm_compute; reflexivity |].
+  intros g [<- | [<- | []]] Hin Hm; vm_compute in Hin, Hm.
+  - destruct Hm as [H | [H | []]]; discriminate H.
+  - destruct Hin as [H | []]. discriminate H.
+Qed.
